@@ -54,6 +54,9 @@ Proof.
     + apply N.div_lt_upper_bound; lia.
 Qed.
 
+Lemma le_dec_1 : forall b r, le_dec 1 (b :: r) = Some (b, r).
+Proof. intros. cbn [le_dec]. f_equal. f_equal. lia. Qed.
+
 Lemma le_dec_some : forall k bs n rest, le_dec k bs = Some (n, rest) ->
   exists pre, bs = pre ++ rest /\ length pre = k.
 Proof.
